@@ -4,6 +4,7 @@ import (
 	"bufio"
 	"crypto/rand"
 	"encoding/base64"
+	"encoding/gob"
 	"encoding/json"
 	"fmt"
 	"net/http"
@@ -322,6 +323,7 @@ func (h *sessHarness) endRequest() {
 
 func runSess(scriptPath, outPath, stateIn, stateOut string, from int) {
 	runtime.GOMAXPROCS(1)
+	gob.Register([]interface{}{})
 	if d := time.Now().Unix() - faketimeEpochUnix; d >= 0 && d < 2 {
 		epoch0 = time.Unix(faketimeEpochUnix, 0)
 	} else {
